@@ -97,25 +97,25 @@ Definition sorted_tests (unpack_outer : bool) (n : node) : res node exn :=
 Definition list_test (n : node) : list id := iterate n.
 
 (* ---- run.py:TestProgram --load-list, run.py:186-198 ----
-   The list file is read in binary mode; a file is its bytes (numbers 0..255),
+   The list file is read in binary mode; a file is its bytes (binary numbers 0..255),
    a test id is the bytes of its UTF-8 encoding.
 
      lines = source.readlines()
      test_ids = {line.strip().decode("utf-8") for line in lines}
      self.test = filter_by_ids(self.test, test_ids)                      *)
-Definition bytes := list nat.
-Definition LF := 10.
+Definition bytes := list N.
+Definition LF : N := 10%N.
 
 (* bytes.strip() without argument removes ASCII whitespace: \t \n \v \f \r and space *)
-Definition is_ws (b : nat) : bool :=
-  Nat.eqb b 9 || Nat.eqb b 10 || Nat.eqb b 11 || Nat.eqb b 12 || Nat.eqb b 13 || Nat.eqb b 32.
+Definition is_ws (b : N) : bool :=
+  (N.eqb b 9 || N.eqb b 10 || N.eqb b 11 || N.eqb b 12 || N.eqb b 13 || N.eqb b 32)%N.
 
 (* a binary file's readlines(): pieces end after each \n (and only \n), which they keep;
    no piece for the empty rest after a final \n *)
 Fixpoint readlines (f : bytes) : list bytes :=
   match f with
   | [] => []
-  | b :: r => if Nat.eqb b LF then [b] :: readlines r
+  | b :: r => if N.eqb b LF then [b] :: readlines r
               else match readlines r with
                    | [] => [[b]]
                    | l :: ls => (b :: l) :: ls
@@ -133,7 +133,7 @@ Definition strip (l : bytes) : bytes := rstrip (lstrip l).
 (* the id set built from the file *)
 Definition load_ids (f : bytes) : list bytes := map strip (readlines f).
 
-Definition bytes_eqb : bytes -> bytes -> bool := list_eqb Nat.eqb.
+Definition bytes_eqb : bytes -> bytes -> bool := list_eqb N.eqb.
 Fixpoint memb (x : bytes) (l : list bytes) : bool :=
   match l with [] => false | y :: r => bytes_eqb x y || memb x r end.
 
